@@ -1,5 +1,5 @@
 //@PROBE file=src/track/store.rs test=verif_probe_distances_c10 clauses=distances
-//@BOUND shard counts 1..=4, both only_baked settings, 300 pseudo-random store contents of 0..=7 tracks (0..=3 observations in each of two feature classes, a class sometimes missing - also after an attributes-only update addressed to it -, two compatibility groups, ready/pending/wasted status; the metric's postprocess_distances either the identity or 'keep the closest observation pair of the batch handed over', which must be one (candidate, stored track) pair) x candidate batches of 1..=3 external tracks (one sharing an id with a stored track) and owned batches of 1..=3 stored ids; whatever worker schedule occurs (the owned query is what D9 was found with: pairs among the owned candidates were dropped when a worker ran before the tracks were put back)
+//@BOUND the error stream also read after the result stream was dropped unread; shard counts 1..=4, both only_baked settings, 300 pseudo-random store contents of 0..=7 tracks (0..=3 observations in each of two feature classes, a class sometimes missing - also after an attributes-only update addressed to it -, two compatibility groups, ready/pending/wasted status; the metric's postprocess_distances either the identity or 'keep the closest observation pair of the batch handed over', which must be one (candidate, stored track) pair) x candidate batches of 1..=3 external tracks (one sharing an id with a stored track) and owned batches of 1..=3 stored ids; whatever worker schedule occurs (the owned query is what D9 was found with: pairs among the owned candidates were dropped when a worker ran before the tracks were put back)
 #[cfg(test)]
 mod verif_probe_distances_c10 {
     // Bounded stand-in for the contract of the distance queries (worker threads, channels: no verifier reaches them).
@@ -111,6 +111,16 @@ mod verif_probe_distances_c10 {
                 let mut got_i: Vec<R> = ok_i.into_iter().map(|r| key(r.from, r.to, r.attribute_metric, r.feature_distance)).collect(); got_i.sort();
                 let errs_i = err_i.into_iter().count();
                 if got_i != want || errs_i != want_errs { failures.push(format!("{}: distances.response_iterators_yield_every_result_and_error: into_iter() gave {} results / {} errors, expected {} / {}", ctx, got_i.len(), errs_i, want.len(), want_errs)); }
+                // the error stream does not depend on what the caller does with the result stream: the same query with the result half dropped unread
+                if it % 3 == 0 {
+                    let (ok_d, err_d) = s.foreign_track_distances(cands.iter().map(|c| mk(&s, c)).collect(), class as u64, only_baked);
+                    drop(ok_d);
+                    match std::panic::catch_unwind(std::panic::AssertUnwindSafe(|| err_d.all().len())) {
+                        Ok(k) if k == want_errs => {}
+                        Ok(k) => failures.push(format!("{}: distances.missing_feature_class_reported_on_the_error_stream: {} error reports when the result stream is dropped unread, expected {}", ctx, k, want_errs)),
+                        Err(_) => failures.push(format!("{}: distances.missing_feature_class_reported_on_the_error_stream: reading the error stream failed after the result stream was dropped unread", ctx)),
+                    }
+                }
                 cases += 1; if want.len() > 3 { nontrivial += 1; }
                 if got.iter().any(|r| r.0 == r.1) { failures.push(format!("{}: distances.never_pairs_a_track_with_itself", ctx)); }
                 if got != want { failures.push(format!("{}: distances.exactly_one_result_per_valued_pair_over_compatible_{}tracks: got {} results, expected {} (first difference: {:?})", ctx, if only_baked { "ready_" } else { "" }, got.len(), want.len(),
